@@ -12,17 +12,28 @@ let look k = try Hashtbl.find tbl k with Not_found -> raise (Miss k)
 let hexl (l : z list) = hex (string_of_zlist l)
 let unhexl (h : string) : z list = zlist_of_string (unhex h)
 
-let p_hmac k d = unhexl (look ("K:" ^ hexl k ^ "," ^ hexl d))
-let p_mulG (k : z) : string = look ("M:" ^ ZA.format "%x" (za_of_z k))
-let p_add (a : string) (b : string) : string = look ("A:" ^ a ^ "," ^ b)
-let p_ser (a : string) = unhexl (look ("S:" ^ a))
-let p_parse b = match look ("D:" ^ hexl b) with "err" -> None | s -> Some s
+(* OBJ / OBJN only: while the script interpreter runs, a question that is not in the line's table (the
+   harness tabulates the primitives of the observed key B, not those of the siblings / grandchildren
+   a script derives and zeroes around it) gets a fixed dummy answer instead of MISS.  Lookup-then-dummy
+   is still a function of the question, and C14_key_object_value_semantics holds for every
+   instance of the primitives: what B reads cannot depend on the dummies unless the object model is
+   wrong — which then shows as model <> impl.  Everywhere else a miss stays a MISS. *)
+let lenient = ref false
+let look_or k (dummy : string) = try Hashtbl.find tbl k with Not_found -> if !lenient then dummy else raise (Miss k)
+let dummy_point = String.make 128 '1'
+let dummy_hex n = String.concat "" (List.init n (fun _ -> "01"))
+
+let p_hmac k d = unhexl (look_or ("K:" ^ hexl k ^ "," ^ hexl d) (dummy_hex 64))
+let p_mulG (k : z) : string = look_or ("M:" ^ ZA.format "%x" (za_of_z k)) dummy_point
+let p_add (a : string) (b : string) : string = look_or ("A:" ^ a ^ "," ^ b) dummy_point
+let p_ser (a : string) = unhexl (look_or ("S:" ^ a) ("02" ^ dummy_hex 32))
+let p_parse b = match look_or ("D:" ^ hexl b) dummy_point with "err" -> None | s -> Some s
 let zeros64 = String.make 64 '0'
 let p_coord_zero (a : string) = String.sub a 0 64 = zeros64 || String.sub a 64 64 = zeros64
 let p_is_inf (a : string) = String.sub a 0 64 = zeros64 && String.sub a 64 64 = zeros64
-let p_hash160 b = unhexl (look ("H:" ^ hexl b))
-let p_dsha b = unhexl (look ("C:" ^ hexl b))
-let p_b58enc b = unhexl (look ("E:" ^ hexl b))
+let p_hash160 b = unhexl (look_or ("H:" ^ hexl b) (dummy_hex 20))
+let p_dsha b = unhexl (look_or ("C:" ^ hexl b) (dummy_hex 32))
+let p_b58enc b = unhexl (look_or ("E:" ^ hexl b) (hexl b))
 let p_b58dec s = unhexl (look ("B:" ^ hexl s))
 
 (* the model and the specification, applied to the primitives *)
@@ -37,6 +48,9 @@ let m_path = derive_path p_hmac p_mulG p_add p_ser p_parse p_coord_zero p_hash16
 let m_coin = derive_coin_type_key p_hmac p_mulG p_add p_ser p_parse p_coord_zero p_hash160
 let m_acct = derive_account_key p_hmac p_mulG p_add p_ser p_parse p_coord_zero p_hash160
 let m_branch = check_branch_keys p_hmac p_mulG p_add p_ser p_parse p_coord_zero p_hash160
+(* Codec/Bip32Obj.v: the script interpreter on key OBJECTS (heap of buffers, Zero wipes in place), with the
+   copying Neuter of the repaired tree (nfix = true) *)
+let m_script neu = run_script p_hmac p_mulG p_add p_ser p_parse p_coord_zero p_hash160 p_dsha p_b58enc true neu
 let s_master : z list -> z list -> string xKey outcome = spec_master p_hmac
 let s_ckd = spec_ckd p_hmac p_mulG p_add p_ser p_is_inf p_hash160
 let s_neuter : string xKey -> string xKey outcome = spec_neuter p_mulG
@@ -77,6 +91,29 @@ let dec_path (s : string) : z list =
   if s = "" then [] else List.map z_of_string (String.split_on_char '/' s)
 let commas s = String.split_on_char ',' s
 
+(* the script language of runObjScript: ops joined by '.', a letter and an optional uint32 argument
+   (strconv.ParseUint(op[1:], 10, 32) with the error ignored: 0 on a syntax error, 2^32-1 on overflow) *)
+let script_arg (o : string) : z =
+  let a = String.sub o 1 (String.length o - 1) in
+  let digits = a <> "" && (let ok = ref true in String.iter (fun c -> if c < '0' || c > '9' then ok := false) a; !ok) in
+  if not digits then z_of_int 0
+  else let v = ZA.of_string a in
+       let mx = ZA.pred (ZA.shift_left ZA.one 32) in
+       z_of_za (if ZA.gt v mx then mx else v)
+let dec_script (s : string) : op list =
+  List.filter_map (fun o ->
+    if o = "" then None
+    else match o.[0] with
+      | 'B' -> Some OpB | 'a' -> Some (OpA (script_arg o)) | 'u' -> Some (OpU (script_arg o)) | 'n' -> Some OpN
+      | 'c' -> Some (OpC (script_arg o)) | 'm' -> Some OpM | 's' -> Some OpS | 'p' -> Some OpP
+      | _ -> None) (String.split_on_char '.' s)
+(* the object the script observes at its end; None = B was never assigned (the harness then panics on nil) *)
+let run_obj neu f i script : extendedKey outcome option =
+  lenient := true;
+  let r = (try m_script neu f i (dec_script script) with e -> lenient := false; raise e) in
+  lenient := false; r
+let res_obj = function None -> "panic" | Some r -> res r
+
 let load_table (t : string) =
   Hashtbl.reset tbl;
   if t <> "" then
@@ -93,8 +130,8 @@ let model kind input : string = guard (fun () ->
   match kind, commas input with
   | "MASTER", [v; s] -> res (m_master (unhexl v) (unhexl s))
   | "CHILD", [f; i] -> res (m_child (dec_fields f) (z_of_string i))
-  | "OBJ", [f; i; _] -> res (m_child (dec_fields f) (z_of_string i))   (* keys are values: what other objects did is irrelevant *)
-  | "OBJN", [f; _] -> res (m_neuter (dec_fields f))
+  | "OBJ", [f; i; sc] -> res_obj (run_obj false (dec_fields f) (z_of_string i) sc)
+  | "OBJN", [f; sc] -> res_obj (run_obj true (dec_fields f) (z_of_int 0) sc)
   | "NEUTER", [f] -> res (m_neuter (dec_fields f))
   | "STRING", [f] -> "ok " ^ hexl (m_string (dec_fields f))
   | "PARSE", [_; s] -> res (m_parse (unhexl s))
